@@ -513,7 +513,7 @@ fn convert_intensity(p: &mut Point) {
 struct Range {
     min: f64,
     max: f64,
-    inv_range: f64,
+    range: f64,
 }
 
 impl Range {
@@ -559,16 +559,12 @@ impl Range {
     }
 
     fn from_min_max(min: f64, max: f64) -> Result<Self> {
-        let range = max - min;
-        if range < 0.0 {
+        // Also rejects NaN limits (clamping to them would panic) and infinite limits
+        if !min.is_finite() || !max.is_finite() || min > max {
             Error::invalid(format!("Found invalid range: min={min}, max={max}"))?;
         }
-        let inv_range = 1.0 / range;
-        Ok(Self {
-            min,
-            max,
-            inv_range,
-        })
+        let range = max - min;
+        Ok(Self { min, max, range })
     }
 
     fn intensity_from_pointcloud(pc: &PointCloud) -> Result<Option<Self>> {
@@ -665,8 +661,18 @@ impl Range {
     #[inline]
     fn normalize(&self, value: f64) -> f32 {
         let clamped = value.clamp(self.min, self.max);
-        let normalized = (clamped - self.min) * self.inv_range;
-        normalized as f32
+        let normalized = if self.range.is_finite() {
+            (clamped - self.min) / self.range
+        } else {
+            // The width of the range is not representable, work with halved values
+            (clamped * 0.5 - self.min * 0.5) / (self.max * 0.5 - self.min * 0.5)
+        };
+        if self.range > 0.0 {
+            normalized as f32
+        } else {
+            // Degenerate range with min == max
+            0.0
+        }
     }
 }
 
